@@ -10,6 +10,7 @@ pub mod c07;
 pub mod c08;
 pub mod c09;
 pub mod c10;
+pub mod c11;
 pub mod c12;
 pub mod c20;
 
@@ -25,6 +26,7 @@ pub fn property(id: &str) -> Option<Property> {
         "C08" => Some(c08::property()),
         "C09" => Some(c09::property()),
         "C10" => Some(c10::property()),
+        "C11" => Some(c11::property()),
         "C12" => Some(c12::property()),
         "C20" => Some(c20::property()),
         _ => None,
